@@ -474,7 +474,11 @@ func (en *mEntry) describe() string {
 // ---------------------------------------------------------------------------------------
 // C12: eviction fires only on breach, removes the right amount in strategy order.
 
-func genC12(r *rand.Rand, _ int, _ string) *Scenario {
+func genC12(r *rand.Rand, run int, _ string) *Scenario {
+	if run%5 == 4 {
+		return genC12Conc(r)
+	}
+
 	sc := genBEBase(r, "evict")
 	be := sc.BE
 	iv := 60 * sec
